@@ -19,9 +19,12 @@ ASSUMPTIONS = [
     'documented in-place mutators of their own object (SegmentationImage '
     'mutators, normalize, aperture setters, add_extra_property) are exempt; '
     'their arguments are not',
-    'the registry covers the entry points named in C02-C20 (see '
-    'vf/registry.py); plotting helpers, I/O readers and the ePSF builder are '
-    'not registered',
+    'the registry covers the entry points named in C02-C20 plus the public '
+    'array-taking helpers (fit_2dgaussian/fit_fwhm, gini, CutoutImage, '
+    'ShepardIDWInterpolator, ImageDepth, make_source_mask, extract_stars, '
+    'PSF matching, IDW background interpolation, catalog cutouts; see '
+    'vf/registry.py); I/O readers and the iterative ePSF builder are not '
+    'registered',
 ]
 
 C10_REPS = ['f64', 'sliced_view', 'fortran', 'negstride', 'masked',
